@@ -77,6 +77,15 @@ def plan(tier, seed):
     # the whole matrix runs in about a minute on 16 cores: both tiers enumerate it completely; the thorough tier
     # additionally repeats it on a second source set (see run_single)
     cases = [{"id": f"opt-{o}-{str(v).replace(' ', '_').replace('/', '_')}-{w}", "kind": "single", "opt": o, "value": v, "way": w} for o, v, w in singles]
+    # an option given on a re-run in a build directory that already holds a font made with another value
+    for o in ("family", "upem", "linegap", "width", "keep_glyph_names", "clipbox_quantization", "transform", "version_major", "color_format", "ascender"):
+        vals_ = OPTIONS[o][1]
+        a_, b_ = (vals_[0], vals_[1]) if o != "color_format" else ("picosvg", "glyf_colr_0")
+        cases.append({"id": f"opt-{o}-{str(a_).replace(' ', '_')}-after-{str(b_).replace(' ', '_')}", "kind": "single", "opt": o, "value": a_, "way": "flag", "prev": b_})
+    # the user transform is placement in *every* colour-format family, not only COLR
+    for fam in ("picosvg", "picosvgz", "glyf"):
+        for v, w in (("translate(100, 50)", "flag"), ("matrix(1 0 0 1 -40 25)", "file"), (None, "absent")):
+            cases.append({"id": f"opt-transform@{fam}-{str(v).replace(' ', '_')}-{w}", "kind": "single", "opt": "transform", "value": v, "way": w, "fmt": fam})
     cases += [{"id": f"pair-{o}-{str(a).replace(' ', '_')}-{str(b).replace(' ', '_')}", "kind": "pair", "opt": o, "a": a, "b": b} for o, a, b in pairs]
     return cases
 
@@ -152,6 +161,18 @@ def observe(font, path, opt, cfgvals, bdir):
         st = font["CBLC"].strikes[0]
         data = list(font["CBDT"].strikeData[0].values())[0]
         return (st.bitmapSizeTable.ppemX, data.metrics.height)
+    if opt == "transform" and "COLR" not in font:
+        # OT-SVG: what the glyph's element paints, in font space; plain glyf: the outline itself
+        out = []
+        for q in ((0x1F600,), (0x1F601, 0x200D, 0x1F3FB)):
+            name = rc.reach(font, q)[0]
+            if "SVG " in font:
+                layers, _ = rc.svg_glyph_layers(font, font.getGlyphID(name))
+                cs = [c_ for l in (layers or []) for c_ in l.contours]
+            else:
+                cs = geom.flatten_glyph(font.getGlyphSet(), name)
+            out.append(tuple(round(v_) for v_ in geom.bbox(cs)))
+        return out
     if opt in ("transform", "clip_to_viewbox"):
         ev = colreval.Evaluator(font)
         out = []
@@ -212,10 +233,11 @@ def expected(opt, v, base):
     return None  # checked by a predicate below
 
 
-def build(cli, root, tag, fmt, flags, file_cfg, sources=SRC, extra_tomls=None):
+def build(cli, root, tag, fmt, flags, file_cfg, sources=SRC, extra_tomls=None, rewrite=True):
     d = root / tag
     src = d / "src"
-    cli.write_sources(src, [{"name": n, "svg": t} for n, t in sources.items()])
+    if rewrite or not src.exists():
+        cli.write_sources(src, [{"name": n, "svg": t} for n, t in sources.items()])
     b = d / "build"
     args = ["--build_dir", str(b)]
     if file_cfg is not None:
@@ -235,7 +257,8 @@ def run_single(case):
 
     opt, v, way = case["opt"], case["value"], case["way"]
     fmt, vals, dflt = OPTIONS[opt]
-    res = {"counters": {}, "violations": [], "tags": [opt, way]}
+    fmt = case.get("fmt") or fmt
+    res = {"counters": {}, "violations": [], "tags": [opt, way] + ([f"{opt}@{fmt}"] if case.get("fmt") else [])}
     c = res["counters"]
     root = common.mkscratch("c20-")
     try:
@@ -282,7 +305,18 @@ def run_single(case):
                 out_name = "Font.ttf"
         if opt == "color_format" and (v or dflt).startswith("cff") and opt != "output_file":
             pass
-        rc, out, b = build(cli, root, "t", cf, flags, file_cfg)
+        if case.get("prev") is not None:
+            # the same build directory already holds a successful build made with another value of this option
+            # (sources untouched in between): the option must still reach the font
+            pflags = ["--output_file", out_name] + [x for k_, val_ in common_cfg.items() for x in flag_args(k_, val_)]
+            if opt != "color_format":
+                pflags += ["--color_format", cf]
+            rc0, out0, _ = build(cli, root, "t", cf, pflags + flag_args(opt, case["prev"]), None)
+            if rc0 != 0:
+                res["error"] = "earlier build failed: " + out0[-400:]
+                return res
+            res["tags"].append("rebuild-after-option-change")
+        rc, out, b = build(cli, root, "t", cf, flags, file_cfg, rewrite=case.get("prev") is None)
         c["cli_builds"] = 1
         ctx = {"option": opt, "value": v, "way": way, "flags": flags, "file": file_cfg}
         if rc != 0:
@@ -448,6 +482,8 @@ def finish(agg):
     inc = []
     if t.get("pair", 0) == 0:
         inc.append("no multi-config case ran")
+    if t.get("rebuild-after-option-change", 0) == 0:
+        inc.append("no re-run with a changed option ran")
     for w in ("flag", "file", "both", "absent"):
         if t.get(w, 0) == 0:
             inc.append(f"way never exercised: {w}")
